@@ -271,7 +271,13 @@ class Lib:
         if hk0:
             return hk0(ex, st, ref, idx, n)
         if o.kind == 'matrix':
-            return self.matrix_getitem(ex, st, ref, idx, n)
+            r = self.matrix_getitem(ex, st, ref, idx, n)
+            if st.ghost.get('log_reads') is not None:
+                # contract option: element reads are remembered (which
+                # matrix, which index, which symbol stands for the value)
+                st.ghost['log_reads'] = st.ghost['log_reads'] + [(ref, idx,
+                                                                   r)]
+            return r
         hk = self.hooks.get('instance_getitem')
         if hk and o.kind == 'instance':
             return hk(ex, st, ref, idx, n)
